@@ -12,11 +12,14 @@ import (
 
 	"ledgerlint/internal/astx"
 	"ledgerlint/internal/core"
+	"ledgerlint/internal/load"
 )
 
 func init() {
 	register("C28", checkC28)
 	addBreakers("C28",
+		Breaker{Name: "metadata-account-cast-unvalidated", File: "internal/machine/vm/machine.go",
+			Old: "\t\t\tval, err = machine.NewValueFromString(res.Typ, metadata)\n\t\t\tif err != nil {\n\t\t\t\treturn err\n\t\t\t}\n", New: "\t\t\tif res.Typ == machine.TypeAccount {\n\t\t\t\tval = machine.AccountAddress(metadata)\n\t\t\t} else {\n\t\t\t\tval, err = machine.NewValueFromString(res.Typ, metadata)\n\t\t\t\tif err != nil {\n\t\t\t\t\treturn err\n\t\t\t\t}\n\t\t\t}\n", Expect: "WMC/address-conversions"},
 		Breaker{Name: "literal-asset-unvalidated", File: "internal/machine/script/compiler/compiler.go",
 			Old: "\t\tif err := machine.ValidateAsset(asset); err != nil {\n\t\t\treturn 0, nil, LogicError(c, err)\n\t\t}\n", New: "", Expect: "DOM/literal-validated"},
 		Breaker{Name: "literal-asset-validation-error-ignored", File: "internal/machine/script/compiler/compiler.go",
@@ -55,6 +58,7 @@ func checkC28(c *core.Ctx) {
 	ruleValueSources(c)
 	rulePostingsValidate(c)
 	ruleCommitPaths(c)
+	ruleAddressConversions(c)
 }
 
 // guardedCall: call is the init (or condition) of an if whose body leaves the function, or its
@@ -746,5 +750,85 @@ func ruleCommitPaths(c *core.Ctx) {
 			return true
 		})
 		c.Shape(bad != nil || swaps == 2, bad == nil && swaps == 2, "DOM/commit-paths", declKey(r)+":swap-only", pos(c, r.Decl), "source ↔ destination only", "Postings.Reverse changes more than the direction of each posting: a reverted transaction may carry values no validation has seen")
+	}
+}
+
+// addressConversionSites: where a plain string may become a machine.AccountAddress / machine.Asset
+// without passing a validator, with the reason each is safe. Any other conversion of a
+// non-constant string is a new, unvalidated source of addresses or assets for the VM.
+var addressConversionSites = map[string]string{
+	"internal/machine.NewValueFromString":                      "the conversion follows ValidateAccountAddress / ValidateAsset on the same string (checked below)",
+	"internal/machine/vm.(Machine).ResolveBalances":            "keys read back from the store for accounts the script already named: used to index the balances map only",
+	"internal/machine/script/compiler.(parseVisitor).VisitLit": "account literal accepted by the lexer's ACCOUNT rule (DOM/literal-validated)",
+}
+
+// ruleAddressConversions (WMC): who may turn a string into an account address or an asset.
+func ruleAddressConversions(c *core.Ctx) {
+	n := 0
+	for _, rel := range []string{pkgMachine, pkgVM, pkgProgram, pkgCompiler, pkgCtrl} {
+		pk := c.Prog().Pkg(rel)
+		if pk == nil {
+			continue
+		}
+		info := pk.TypesInfo
+		for _, f := range pk.Syntax {
+			if load.IsGenerated(f) || strings.HasSuffix(c.Prog().Rel(f.Pos()), "_test.go") {
+				continue
+			}
+			for _, dd := range f.Decls {
+				fd, ok := dd.(*ast.FuncDecl)
+				if !ok || fd.Body == nil {
+					continue
+				}
+				fkey := enclKey(rel, fd)
+				if obj := load.FuncObj(pk, fd); obj != nil {
+					fkey = astx.FuncKey(obj)
+				}
+				occ := 0
+				ast.Inspect(fd.Body, func(x ast.Node) bool {
+					call, ok := x.(*ast.CallExpr)
+					if !ok || len(call.Args) != 1 {
+						return true
+					}
+					tv, ok := info.Types[call.Fun]
+					if !ok || !tv.IsType() {
+						return true
+					}
+					nt := astx.Named(tv.Type)
+					if nt == nil || nt.Obj().Pkg() == nil || !strings.HasSuffix(nt.Obj().Pkg().Path(), pkgMachine) || (nt.Obj().Name() != "AccountAddress" && nt.Obj().Name() != "Asset") {
+						return true
+					}
+					at := info.Types[call.Args[0]]
+					if at.Value != nil {
+						return true // constant
+					}
+					if st := info.TypeOf(call.Args[0]); st == nil || astx.Named(st) == nt {
+						return true // already of that type
+					}
+					occ++
+					n++
+					key := fmt.Sprintf("%s:%s#%d", fkey, nt.Obj().Name(), occ)
+					if why, ok := addressConversionSites[fkey]; ok {
+						c.Pass("WMC/address-conversions", key, pos(c, call), "allowed: "+why)
+						return true
+					}
+					c.Fail("WMC/address-conversions", key, pos(c, call), "a string is converted to machine."+nt.Obj().Name()+" here without going through the validating constructor (NewValueFromString / the lexer rule): a value the patterns reject (metadata content, request variable) can reach a committed posting")
+					return true
+				})
+			}
+		}
+	}
+	c.Floor("WMC/address-conversions", "string → AccountAddress/Asset conversions", n, 4)
+	// inside NewValueFromString the validation precedes the conversion
+	if d := fn(c, pkgMachine, "", "NewValueFromString"); d != nil {
+		info := d.Pkg.TypesInfo
+		for _, v := range []string{"ValidateAccountAddress", "ValidateAsset"} {
+			calls := callsTo(info, d.Decl.Body, named(v))
+			ok := len(calls) >= 1
+			for _, call := range calls {
+				ok = ok && (errLeaves(info, d.Decl.Body, call) || assignedErrChecked(info, d.Decl.Body, call))
+			}
+			c.Check(ok, "WMC/address-conversions", declKey(d)+":"+v, pos(c, d.Decl), v+" and its error returned before the value is built", "NewValueFromString no longer validates (or ignores the verdict of) "+v+": every variable and metadata value of that type enters the VM unchecked")
+		}
 	}
 }
